@@ -57,6 +57,11 @@ SIGS = {
     "3in": dict(sig="(A:center,B:center),(A:left,B:center),(B:outer)->(A:center,B:center)",
                 axis=[("lon", "lat"), ("lon", "lat"), ("lat",)], bw={"B": (1, 0)}),
     "rebind": dict(sig="(Q:center)->(Q:left)", axis=[("lat",)], bw={"Q": (2, 0)}),
+    # dummy names that are ALSO names of real axes of the grid, bound to a different real axis (dummy names are bound variables:
+    # boundary_width is keyed by the dummy name, whatever real axes happen to be called)
+    "crossnamed": dict(sig="(lat:center,lon:center)->(lat:left,lon:center)", axis=[("lon", "lat")], bw={"lat": (1, 0), "lon": (0, 2)}),
+    "shiftnamed": dict(sig="(lon:center,lat:center)->(lon:left,lat:inner)", axis=[("lat", "lev")], bw={"lon": (1, 0), "lat": (2, 1)}),
+    "rebind-named": dict(sig="(lon:center)->(lon:outer)", axis=[("lat",)], bw={"lon": (1, 2)}),
 }
 WAYS = ["apply", "grid-method", "decorator-def", "decorator-call", "decorator-override", "hints"]
 RULES = ["fill", "extend", "periodic"]
